@@ -26,6 +26,26 @@ def run(tier, rep):
     rep.add_tlc("MC_Transform(BoundedIngesterCalls)", r)
     if not vlib.tlc_ok(r, "MC_Transform"):
         raise vlib.Inconclusive("Transform.tla violates %s: specification problem" % r.violated)
+    # template expansion during validation (Templates.tla): the recursion never re-enters a template, ends, and its verdict is
+    # "circular" exactly for reference cycles reachable from FINAL_OUTPUT; every reference graph over 3 templates replayed
+    r = vlib.tlc("MC_Templates", "MC_Templates.cfg", consts={"ForgetAtDyn": "FALSE", "EmitCases": "TRUE"}, timeout=3000)
+    rep.add_tlc("MC_Templates(NoReentry, Verdict, Terminates)", r)
+    if not vlib.tlc_ok(r, "MC_Templates"):
+        raise vlib.Inconclusive("Templates.tla violates %s: specification problem" % r.violated)
+    p = os.path.join(vlib.scratch(), "c03.templates.ndjson")
+    vlib.write_ndjson(p, r.cases)
+    del r.cases[:]
+    recs, _ = vlib.run_vh(["c03-templates", p], timeout=3000)
+    for x in recs:
+        if x.get("kind") == "violation":
+            rep.violation(x)
+        elif x.get("kind") == "summary":
+            rep.add_summary(x)
+    if thorough:
+        r = vlib.tlc("MC_Templates", "MC_Templates.cfg", consts={"ForgetAtDyn": "TRUE"}, timeout=3000)
+        if not r.violated:
+            raise vlib.Inconclusive("Templates.tla does not refute the design that forgets the reference stack at xpath_dynamic")
+        rep.notes.append("MC_Templates refutes ForgetAtDyn = TRUE (%s)" % r.violated)
     # (b) mutation driver
     tr = os.path.join(vlib.scratch(), "c03.trace.ndjson")
     recs, _ = vlib.run_vh(["c03-drive", tr] + (["1200", "400"] if thorough else ["120", "50"]), timeout=3400)
@@ -55,7 +75,8 @@ def run(tier, rep):
         rep.violation({"property": "C03", "key": key, "kind": "b2",
                        "summary": "%s [%s on %s: %s] (%d occurrence(s))" % (what, ev.get("kind"), ev.get("item"), rp.get("mutation"), counts.get(key, 1)),
                        "stage": ev.get("stage"), "schema": rp.get("schema"), "input": rp.get("input"), "mutation": rp.get("mutation")})
-    rep.cov["rule"] = ("every corpus schema (7 formats; harness, generated and repo samples): 120/1200 single structural mutations (delete key, wrong JSON "
+    rep.cov["rule"] = ("template expansion: every reference graph over 3 templates x 4 hop kinds (direct, child position, xpath_dynamic) in 6 renderings; "
+                       "every corpus schema (7 formats; harness, generated and repo samples): 120/1200 single structural mutations (delete key, wrong JSON "
                        "type or odd value incl. null under xpath_dynamic, number/string extremes incl. delimiter metacharacters, subtree copies giving cyclic or "
                        "misplaced templates, custom_func arity/name changes, occurrence bounds) and 50/400 input mutations (truncate, flip, concatenate, noise, "
                        "splice); NewSchema/NewTransform/Read under recover + watchdog; TLC (Trace_Robust) checks every outcome. non-trivial: an accepted "
